@@ -40,6 +40,17 @@ theorem expErr_of_false {ty : TokType} {st : PS} (h : (expectToken ty st).1 = fa
 theorem semiErr_of_true {cfg : PCfg} {st : PS} (h : (expectSemiASI cfg st).1 = true) : semiErr cfg st = 0 := by simp [semiErr, h]
 theorem semiErr_of_false {cfg : PCfg} {st : PS} (h : (expectSemiASI cfg st).1 = false) : semiErr cfg st = 1 := by simp [semiErr, h]
 
+theorem expErr_of_not {ty : TokType} {st : PS} (h : (!(expectToken ty st).fst) = true) : expErr ty st = 1 := by
+  simp [expErr] at *; simp [h]
+theorem expErr_of_ok {ty : TokType} {st : PS} (h : ¬(!(expectToken ty st).fst) = true) : expErr ty st = 0 := by
+  simp [expErr] at *; simp [h]
+theorem semiErr_of_not {cfg : PCfg} {st : PS} (h : (!(expectSemiASI cfg st).fst) = true) : semiErr cfg st = 1 := by
+  simp [semiErr] at *; simp [h]
+theorem semiErr_of_ok {cfg : PCfg} {st : PS} (h : ¬(!(expectSemiASI cfg st).fst) = true) : semiErr cfg st = 0 := by
+  simp [semiErr] at *; simp [h]
+theorem expErr_le (ty : TokType) (st : PS) : expErr ty st ≤ 1 := by unfold expErr; split <;> omega
+theorem semiErr_le (cfg : PCfg) (st : PS) : semiErr cfg st ≤ 1 := by unfold semiErr; split <;> omega
+
 theorem Steps.elen_le {s s' : PS} (h : Steps s s') : s.elen ≤ s'.elen := h.errors_prefix.length_le
 
 theorem elen_parseFunctionParameters {st : PS} {r : List Ident × PS} (h : parseFunctionParameters st = some r) :
